@@ -59,7 +59,9 @@ def type_specs(tier):
 
 
 CLASS_OPTIONS = ["", "addition=True", "addition=False", "addition=int", "case_insensitive=True", "mode='r'", "mode='w'",
-                 "mode='a'", "addition=False, mode='w'", "case_insensitive=True, addition=True"]
+                 "mode='a'", "addition=False, mode='w'", "case_insensitive=True, addition=True",
+                 # defaults that the parser does not fill in are not required of its output
+                 "no_default=True", "defer_default=True", "ignore_required=True"]
 
 
 # declarations used by this check only (no reference model needed here: the structure is observed on the parser)
